@@ -82,6 +82,9 @@ class CCQR(QR):
 
         # Initialize helper variables
         R = basis_matrix.conj().T.copy()
+        if not np.issubdtype(R.dtype, np.inexact):
+            # The reflectors are applied in place: integer data needs a float array
+            R = R.astype(float)
         p = np.arange(n)
         k = min(m, n)
         row = 0  # first row of R that has not been eliminated yet
